@@ -8,7 +8,7 @@ from hypothesis import strategies as st
 from reactivex import operators as ops
 
 from vlib.core import FAIL, OK, SKIP, Check, HarnessError
-from vlib.difftools import coldify, dispose_tree, guard_spin, first_diff, norm_tree, runtime_multiset, sort_intervals, src_key, tree_has_next
+from vlib.difftools import coldify, dispose_tree, guard_all, first_diff, norm_tree, runaway, runtime_multiset, sort_intervals, src_key, tree_has_next
 from vlib.lab import Lab
 from vlib.pipes import OPS, Builder, s_count, s_dur1, s_inners, s_src, s_val
 from vlib.values import val
@@ -36,7 +36,7 @@ ASSUMPTIONS = [
     "operator arguments that are user-owned stateful objects (an explicit Subject for multicast, an observer for do) are excluded, as the property's quantifier does",
     "auxiliary sources inside operator arguments are cold/synchronous (hot specs are re-read as cold): they are created per factory call, so ONE shares a cold object that FRESH duplicates, which is behaviourally neutral only for cold sources",
     "while_do/do_while use a condition whose counter is keyed by the source it is given (user state per source, identical in both worlds) instead of the grammar's per-factory counter; window_when/buffer_when use a single closing timeline so the grammar's call counter is irrelevant",
-    "everything still subscribed at tick 150 is disposed in both worlds; runs hitting the spin guard/work budget, or where the FRESH world lets an exception escape the scheduler, are discarded as inconclusive and counted",
+    "everything still subscribed at tick 150 is disposed in both worlds; runs are discarded as inconclusive and counted when the scheduler dequeues >=95 items without advancing its clock (spin bump, C29), the work budget is exceeded, the Python stack exceeds 400 frames or a RecursionError shows up in a trace, or the FRESH world lets an exception escape the scheduler",
 ]
 
 HORIZON = 150
@@ -91,7 +91,7 @@ def _prefix(lab, i, inp, pre):
 def _world(case, one, make_ops, inp="any"):
     """make_ops(lab) -> operator function (one factory call). Returns dict with lab, probes, source groups."""
     lab = Lab()
-    guard_spin(lab)
+    guard_all(lab)
     n = len(case["srcs"])
     prim = [lab.source(s) for s in case["srcs"]]
     mark = len(lab.sources)
@@ -163,6 +163,8 @@ def _judge(case, make_ops, culprit, cls, inp="any"):
     O = _world(case, True, make_ops, inp)
     if O["lab"].inconclusive:
         return SKIP(O["lab"].inconclusive)
+    if runaway([norm_tree(p, 0) for p in F["probes"] + O["probes"]]):
+        return SKIP("recursion")
     cls = list(cls)
     n = len(case["srcs"])
     # non-trivial: two applications active over overlapping tick ranges, each delivering >= 1 on_next (FRESH world)
